@@ -23,7 +23,7 @@ RULE = ("four case kinds. cpp_models (46%): random op lists (4-28 ops quick, 4-6
         "copy/move/swap of whole CQMs, weak_ptr) with the native invariant after every op. py_dqm (11%): histories (3-24 calls quick, 3-50 thorough) of VALID calls on a real DiscreteQuadraticModel, through the Python wrapper with labels that differ from the indices or on the Cython object: add_variable (1-3 cases, <= 5 variables), set_linear, set_linear_case, set_quadratic_case with the two variables in either order, set_quadratic with a dict or a dense array (zeros skipped), add_linear_equality_constraint (duplicate cases, repeated variables, empty), offset, copy (history continues on the copy, the original is re-read at the end), to_numpy_vectors -> from_numpy_vectors (continues on the rebuilt object); after EVERY call the raw adj_, case starts, the case-level BQM (neighbourhood order as emitted), both interaction counts, every degree, get_quadratic of every ordered pair (dict, array form and get_quadratic_case cross-checked) and two energies are compared with Model/DqmNative.v, and dinv_b is evaluated on the model and on the observed state. py (16%): 6 calls each, in child interpreters; besides the malformed-argument catalogue two families added in round 5: 'fresh' - invalid calls that carry a FRESH hashable label where the entry point creates variables on the fly (the same fresh label twice, fresh label followed by an invalid label / bias, iterables whose later item is malformed, new variables with wrong vartype / bounds / case count, whole models with a fresh and a conflicting variable) for BQM (4 fixtures, 3 dtypes), QM, CQM (model, objective and constraint views), DQM: a raise must leave the full dump (variables included) unchanged; 'reduce' - reduce_linear / reduce_neighborhood / reduce_quadratic and the max / min / sum of the linear, quadratic and adj[v] views on degree-0 variables (middle and end of the index range) of models that have interactions, on interaction-free and on empty models, with and without initializer / default, 6 functions: no crash, no change, the empty cases without initializer raise, and every numeric result is recomputed from the dump taken before the call (functools.reduce over the dumped biases in index order). Generic: 6 malformed calls each against "
         "BQM (float64/float32/object), QM, CQM, DQM in child interpreters, 10 s limit per call; thorough adds a valgrind sample. "
         "non-trivial = at least 3 executed ops / any py case; distinct by case JSON")
-TRUSTED = ["model for the py_dqm cases: coq/theories/Model/DqmNative.v, ChkC20Dqm.v (hand written mirror of cydiscrete_quadratic_model.pyx)",
+TRUSTED = ["model for the py_dqm cases: coq/theories/Model/DqmNative.v, ChkC20Dqm.v (hand written mirror of cydiscrete_quadratic_model.pyx); the round-6 theorems about the rebuild, energies and get_quadratic are statements about this mirror, tied to the code by the per-call comparison of the raw state",
            "model: coq/theories/Model/Adj.v, AdjMore.v, ChkC20.v (hand written mirror of abc.h, binary_quadratic_model.h, quadratic_model.h, utils.h)",
            "model for the cq.* ops: coq/theories/Model/Expr.v, ExprOps.v (g9's mirror of expression.h / constrained_quadratic_model.h), ChkC20Cqm.v",
            "cpp/driver.cpp (executes the ops, prints the state through the public C++ API, re-checks the invariant natively)",
@@ -33,7 +33,7 @@ ASSUMPTIONS = ["biases are small dyadic rationals (|x| < 2^16, denominators <= 2
                "floating point operation of the implementation is exact and comparison with the rational model is exact",
                "moved-from objects are only cleared or assigned to, as the standard library guarantees no more",
                "sanitizers see the header code compiled into the driver, not the code compiled into the Python extension (that half is covered by the child-interpreter stream and valgrind)"]
-PARTIAL = ["cyDiscreteQuadraticModel: the invariant (case-level BQM invariant, case starts, adj_ strictly sorted / symmetric / self-free / covering every case interaction) is proved preserved by EVERY modelled call, the to_numpy_vectors/from_numpy_vectors rebuild included (C20_dqm_every_step_preserves_invariant); for the rebuild only 'no interaction is invented' is a theorem, that none is lost and the bias values are compared per case; energies, get_quadratic and to_numpy_vectors are compared per case, without a theorem relating them to the polynomial; translators/dqm_native_shapes.py ties the model to the .pyx source for the two track-in-adjacency blocks and the energies break (generated definitions proved equal to the model's: C20_dqm_track_generated, C20_dqm_energy_break_generated) and recognises, fail-closed, the per-case cursor reset of the adjacency rebuild and the five-branch merge loop; the rest of DqmNative.v is hand written; the DQM file format and CaseLabelDQM are not part of this stream",
+PARTIAL = ["cyDiscreteQuadraticModel: the invariant (case-level BQM invariant, case starts, adj_ strictly sorted / symmetric / self-free / covering every case interaction) is proved preserved by EVERY modelled call, the to_numpy_vectors/from_numpy_vectors rebuild included (C20_dqm_every_step_preserves_invariant). Round 6: the rebuild is now fully specified by theorems on every state satisfying the invariant - the rebuilt case-level BQM is EQUAL to the old one (linear vector, every neighbourhood with its order and biases, zero biases included, offset, vartypes: C20_dqm_round_trip_bqm_identity), the case starts are the same, the whole rebuilt object is (old BQM, old starts, projection of the case interactions) (C20_dqm_round_trip_whole_state), the rebuild is idempotent, it is the identity exactly when adj_ recorded no pair of variables without a case interaction (C20_dqm_round_trip_identity_iff_tight; an all-zero dense set_quadratic records such a pair, Example C20_dqm_round_trip_examples), the rebuilt adj_ is a subset of the old one, every energy of a valid sample is kept (C20_dqm_round_trip_keeps_energies), every get_quadratic answer after the rebuild is the old answer and a pair that is gone had an empty listing. Reads: energies equals offset + chosen-case linear biases + the stored bias between the chosen cases of EVERY pair of variables (C20_dqm_energy_is_case_polynomial; pairs adj_ does not record have no stored bias) and equals the polynomial Adj.abs of the case-level BQM at the one-hot encoding of the sample (C20_dqm_energy_is_onehot_polynomial); get_quadratic lists exactly the stored case interactions (C20_dqm_get_quadratic_lists_stored). Still only compared per case, without a theorem: the exact ORDER of the COO arrays emitted by to_numpy_vectors (the worker turns the arrays back into neighbourhoods in emission order and these are compared with the model's), the array form of get_quadratic and get_quadratic_case (cross-checked against the dict form in the worker), and energies on samples with an out-of-range case (the theorems assume 0 <= case < num_cases(v); the generator only produces such samples); translators/dqm_native_shapes.py ties the model to the .pyx source for the two track-in-adjacency blocks and the energies break (generated definitions proved equal to the model's: C20_dqm_track_generated, C20_dqm_energy_break_generated) and recognises, fail-closed, the per-case cursor reset of the adjacency rebuild and the five-branch merge loop; the rest of DqmNative.v is hand written; the DQM file format and CaseLabelDQM are not part of this stream",
            "every cq.* op of the driver now has a Coq-side model (Model/ChkC20Cqm.v over g9's Model/Expr.v + ExprOps.mstep) and every dump of "
            "both CQM objects is compared: variable info, per expression variables() order, linear by position, offset, quadratic per "
            "unordered pair (sum + presence), constraint attributes (sense, rhs, weight, penalty, discrete marker), the values returned "
@@ -49,8 +49,15 @@ PARTIAL = ["cyDiscreteQuadraticModel: the invariant (case-level BQM invariant, c
            "set_quadratic, expression fix_variable, scale, the copying fix_variables path (over the new variable count) and "
            "remove_constraints_if; functional statements for set_quadratic (read-back), fix_variable (variable gone), scale (energy * k; "
            "Constraint::scale with its LE/GE flip keeps the satisfying samples for k <> 0), is_onehot (reflection), energy (= energy of the "
-           "abstraction). Still only compared per case: the VALUES produced by expression fix_variable and by the copying fix_variables path "
-           "(no energy-level theorem 'fixing = evaluating at the assignment' for these two), and QAddConCopyRaw with repeated labels",
+           "abstraction). Round 6: the VALUES of the three fixing paths now have energy-level theorems 'fixing = evaluating at the assignment' "
+           "(Proofs/C20FixEnergy.v): Expression::fix_variable (C20_expr_fix_variable_energy: energy of the result at s = energy of the source "
+           "at s[v := a]; the result no longer depends on s(v)), the copying fix_variables path (C20_fix_expr_is_fix_variables_expr identifies "
+           "the C20 model fix_expr with the C03 mirror Model/FixCopy.fix_variables_expr, C20_fix_expr_energy / C20_fix_variables_copy_energy: "
+           "objective and every constraint of the new model at s' = the old ones at s' extended by the fixed values, for samples that respect "
+           "the new vartypes - the only place the domain matters is a self interaction of a BINARY/SPIN variable folded by add_quadratic_back) "
+           "and the in-place op MFixVariable of ExprOps.mstep (C20_mstep_fix_variable_energy). Still only compared per case: QAddConCopyRaw "
+           "with repeated labels, and the discrete marker recomputed by the copying path (is_onehot of the rebuilt constraint; its reflection "
+           "C20 theorem is_onehot_spec exists, the marker's value after fixing is compared, not specified)",
            "energy-level specification of substitute_variables / BQM change_vartype: proved by identifying AdjMore.substitute_variables with "
            "g11's loop-shaped mirror (AdjSubstAll) and re-exporting its theorems; it needs 'no self-loops', which holds for every BQM object; "
            "for a QuadraticModel with self-loops abc.h's substitute_variables is NOT the substitution (g11's refutation), the check only "
